@@ -1,0 +1,101 @@
+//go:build verif
+// +build verif
+
+package erpc
+
+import (
+	"sync/atomic"
+)
+
+// Verification hooks (build tag verif only). A gate is a named point inside the session
+// machinery; when a controller is installed the goroutine reaching a gate calls it (and the
+// controller may park it), otherwise a gate does nothing.
+
+type verifGateFunc func(point string, s Session)
+
+var verifGateFn atomic.Value   // verifGateFunc
+var verifStatusFn atomic.Value // func(s Session, to int32)
+
+// VerifSetGate installs (or, with nil, removes) the gate controller.
+func VerifSetGate(fn func(point string, s Session)) {
+	verifGateFn.Store(verifGateFunc(fn))
+}
+
+// VerifSetStatusObserver installs (or, with nil, removes) the status-transition observer.
+func VerifSetStatusObserver(fn func(s Session, to int32)) {
+	verifStatusFn.Store(fn)
+}
+
+func verifGate(point string, s *session) {
+	if v := verifGateFn.Load(); v != nil {
+		if fn := v.(verifGateFunc); fn != nil {
+			fn(point, s)
+		}
+	}
+}
+
+func verifStatus(s *session, to int32) {
+	if v := verifStatusFn.Load(); v != nil {
+		if fn := v.(func(s Session, to int32)); fn != nil {
+			fn(s, to)
+		}
+	}
+}
+
+// VerifSentinels returns the package-level predefined statuses by name.
+func VerifSentinels() map[string]*Status {
+	return map[string]*Status{
+		"statInvalidOpError":      statInvalidOpError,
+		"statUnknownError":        statUnknownError,
+		"statDialFailed":          statDialFailed,
+		"statConnClosed":          statConnClosed,
+		"statWriteFailed":         statWriteFailed,
+		"statBadMessage":          statBadMessage,
+		"statNotFound":            statNotFound,
+		"statCodeMtypeNotAllowed": statCodeMtypeNotAllowed,
+		"statHandleTimeout":       statHandleTimeout,
+		"statInternalServerError": statInternalServerError,
+		"statUnpreparedError":     statUnpreparedError,
+	}
+}
+
+// VerifPendingCalls returns the number of entries in the session's pending-call table.
+func VerifPendingCalls(sess Session) int {
+	s, ok := sess.(*session)
+	if !ok {
+		return -1
+	}
+	return s.callCmdMap.Len()
+}
+
+// VerifSessionStatus returns the raw status word of the session.
+func VerifSessionStatus(sess Session) int32 {
+	s, ok := sess.(*session)
+	if !ok {
+		return -1
+	}
+	return s.getStatus()
+}
+
+// VerifStatusName names a raw session status.
+func VerifStatusName(st int32) string {
+	switch st {
+	case statusPreparing:
+		return "preparing"
+	case statusOk:
+		return "ok"
+	case statusActiveClosing:
+		return "active-closing"
+	case statusActiveClosed:
+		return "active-closed"
+	case statusPassiveClosing:
+		return "passive-closing"
+	case statusPassiveClosed:
+		return "passive-closed"
+	case statusRedialing:
+		return "redialing"
+	case statusRedialFailed:
+		return "redial-failed"
+	}
+	return "unknown"
+}
